@@ -3,7 +3,7 @@
 From Coq Require Import Extraction ExtrOcamlBasic NArith List.
 From RsddV Require Import Base.Bdd Model.IteStd Model.BddOps Model.BddProg Model.Wmc Model.Semirings
   Model.SemHash Generated.Constants.
-From RsddV Require Model.SddVtree Model.SddOps Model.SddWmc Model.SddSemHash.
+From RsddV Require Model.SddVtree Model.SddOps Model.SddWmc Model.SddSemHash Model.SddSemBuilder.
 Extraction Language OCaml.
 
 (* the SDD half: the builder model of C03 (Model/SddOps.v) and the two hashes of Model/SddSemHash.v.
@@ -24,8 +24,22 @@ Definition so_cond (i : nat) (v : var) (b : bool) : SddOps.sop := SddOps.OCond i
 Definition so_exists (i : nat) (v : var) : SddOps.sop := SddOps.OExists i v.
 Definition sdd_pool_of {A} (r : SddOps.res A) : option A := match r with SddOps.Ok x => Some x | _ => None end.
 
+(* the SemanticSddBuilder model (Model/SddSemBuilder.v): pool, number of stored nodes, number of
+   get_or_insert_bdd / get_or_insert_sdd requests; None = the model run panicked / ran out of fuel.
+   [Hf] is the pointer hash: the driver passes a memoised copy of [semb_hash P w] = shash P w *)
+Definition semb_run (t : SddVtree.vtree) (P : N) (Hf : SddOps.sdd -> N) (fuel : nat) (ops : list SddOps.sop)
+  : option (list SddOps.sdd * (nat * nat)) :=
+  match SddSemBuilder.run_prog_sem_h t P Hf fuel ops with
+  | SddOps.Ok (pool, st, log) =>
+    Some (pool, (length (SddSemBuilder.s_tbl st),
+                 length (filter (fun e => match e with SddSemBuilder.EReq _ => true | _ => false end) log)))
+  | _ => None
+  end.
+Definition semb_hash := SddSemBuilder.shash.
+
 Extraction "../ocaml/C11/model.ml" run_prog bstate_init bdd_eqb neg
   hash_m cached_hash cached_hashes weights_ok hash_match hneg
   prime_U32_TINY prime_U32_SMALL prime_U64_LARGEST
   sdd_run_prog sdd_pool_of so_true so_false so_var so_neg so_and so_or so_xor so_iff so_ite so_cond so_exists
-  SddOps.sneg SddSemHash.sdd_hash_m SddSemHash.sdd_cached_hash SddSemHash.sdd_cached_hashes.
+  SddOps.sneg SddSemHash.sdd_hash_m SddSemHash.sdd_cached_hash SddSemHash.sdd_cached_hashes
+  semb_run semb_hash.
